@@ -54,6 +54,7 @@ func (s *Session) snap() *snapshot {
 func (s *Session) restore(sn *snapshot) {
 	s.facts = s.facts[:sn.nfacts]
 	s.factBlk = s.factBlk[:sn.nfacts]
+	s.factWeak = s.factWeak[:sn.nfacts]
 	s.obls = s.obls[:sn.nobls]
 	s.decls = s.decls[:sn.ndecls]
 	s.nfresh = sn.nfresh
@@ -343,6 +344,10 @@ func (f *Frame) enterLoop(li *loopInfo) *BState {
 		}
 	}
 	keys, ksorts := f.modifiedKeys(li, st0)
+	li.modKeys = map[string]bool{}
+	for _, k := range keys {
+		li.modKeys[k] = true
+	}
 	lname := fmt.Sprintf("%s#loop%d", s.C.Key(), li.ordinal)
 	if f != s.topFrame {
 		lname = fmt.Sprintf("%s#%s.loop%d", s.C.Key(), funcRelName(f.fn), li.ordinal)
